@@ -126,6 +126,38 @@ func poolHistory(r *common.Rand, min, max, steps int) []string {
 	return fails
 }
 
+// poolBurst: many buffers of one size class are held at the same time, all are returned, and the same number is taken
+// again - several rounds: at no time do two holders have the same buffer.  (Whatever sits between the callers and
+// sync.Pool - free lists, rings, caches - is exercised at its capacity limits: depth around 2^k for k up to 12.)
+func poolBurst(min, max, size, depth, rounds int) []string {
+	var fails []string
+	p := util.NewLimitedPool(min, max)
+	for round := 0; round < rounds; round++ {
+		held := make([]*[]byte, 0, depth)
+		seen := make(map[unsafe.Pointer]int, depth)
+		for i := 0; i < depth; i++ {
+			b := p.Get(size)
+			if len(*b) != size {
+				fails = append(fails, fmt.Sprintf("wrong-length|min=%d max=%d: Get(%d) returned len %d", min, max, size, len(*b)))
+				return fails
+			}
+			if cap(*b) > 0 {
+				k := unsafe.Pointer(&(*b)[:1][0])
+				if j, dup := seen[k]; dup {
+					fails = append(fails, fmt.Sprintf("buffer-shared|min=%d max=%d: round %d, %d buffers of %d bytes held at once: the %d-th Get returned the buffer the %d-th holder still has", min, max, round, depth, size, i+1, j+1))
+					return fails
+				}
+				seen[k] = i
+			}
+			held = append(held, b)
+		}
+		for _, b := range held {
+			p.Put(b)
+		}
+	}
+	return fails
+}
+
 // results of Encode / Zip / Unzip are held by the caller while the library keeps working
 func heldResults(r *common.Rand, workers, rounds int) []string {
 	var mu sync.Mutex
@@ -210,6 +242,16 @@ func runC20(r *common.Rand, tier string, o *common.Out, replay string) {
 		o.Case("replay", fmt.Sprintf("fpr %d %d", mn, mx), obs, true)
 		return
 	}
+	if strings.HasPrefix(replay, "burst|") {
+		var mn, mx, size, depth int
+		fmt.Sscanf(replay, "burst|%d|%d|%d|%d", &mn, &mx, &size, &depth)
+		for _, f := range poolBurst(mn, mx, size, depth, 3) {
+			p := strings.SplitN(f, "|", 2)
+			o.Fail("replay", p[0], p[1], replay)
+		}
+		o.ImplOnly("replay", replay, true)
+		return
+	}
 	if replay != "" {
 		runSrv("C20", r, tier, o, replay)
 		return
@@ -251,6 +293,18 @@ func runC20(r *common.Rand, tier string, o *common.Out, replay string) {
 		}
 		o.ImplOnly(id, fmt.Sprintf("%s#%d", abstract, i), true)
 		o.Count("get-put-history")
+	}
+	// (2b) bursts: many buffers of one class outstanding at once, returned, taken again
+	for bi, depth := range []int{63, 64, 65, 255, 256, 257, 1023, 1024, 1025, 1026, 2049, 4097} {
+		id := fmt.Sprintf("burst%d", bi)
+		abstract := fmt.Sprintf("burst|512|4096|%d|%d", 600+bi, depth)
+		o.Begin(id, abstract)
+		for _, f := range poolBurst(512, 4096, 600+bi, depth, 3) {
+			p := strings.SplitN(f, "|", 2)
+			o.Fail(id, p[0], p[1], abstract)
+		}
+		o.ImplOnly(id, abstract, true)
+		o.Count("pool-burst")
 	}
 	// (3) Encode / Zip / Unzip results held across concurrent library activity (oracle only)
 	rounds := 150
